@@ -50,7 +50,7 @@ META = {
 
 def units(tier):
     rng = random.Random(seed())
-    specs, _ = small_specs(tier, rng, nrand_quick=300, nrand_thorough=4000,
+    specs, _ = small_specs(tier, rng, nrand_quick=300, nrand_thorough=20000,
                            exhaustive_quick=((1, 1, 3, 2), (2, 1, 3, 2), (2, 2, 3, 2)),
                            exhaustive_thorough=((1, 1, 3, 3), (2, 1, 3, 2), (2, 2, 3, 2), (2, 1, 4, 2), (3, 1, 4, 2)))
     out = []
